@@ -13,9 +13,14 @@
    least one free qubit (branch 2); for m >= 3 this is equivalent to "at least one free qubit".
    With m >= 3 and no free qubit the real code raises NotImplementedError
    ([x_decompose_rejects_no_free]).  Inputs with overlapping qubits are rejected by the real code
-   (ValueError) and lie outside the NoDup hypothesis. *)
+   (ValueError) and lie outside the NoDup hypothesis.
+
+   Second half of this file: the variant use_toffolis=False (congruent Toffolis, relative phases).
+   Model: C08/MCXSignedModel.v ([x_step_cong]/[mcx_decompose_cong]); semantics: C08/Signed.v
+   (signed permutations: basis state = (bits, sign), [run_signed]); proofs: C08/MCXSignedProofs.v. *)
 From Coq Require Import List Bool Arith Lia Permutation.
 From QV Require Import C08.Reversible C08.MCXModel C08.MCXProofs.
+From QV Require Import C08.Signed C08.MCXSignedModel C08.MCXSignedProofs.
 Import ListNotations.
 
 (* Main theorem.  m = length controls and length free are arbitrary; N is any register size
@@ -137,4 +142,194 @@ Proof.
   - simpl. intuition lia.
   - simpl. lia.
   - vm_compute. reflexivity.
+Qed.
+
+(* ======================================================================================== *)
+(* use_toffolis=False: every Toffoli except `first_toffoli` of branch 1 (and the gate returned
+   for m <= 2 controls) is replaced by TOFFOLI.congruent = 7 RY/CNOT gates = TOFFOLI times a
+   diagonal sign (-1 on |c0 c1 t> = |100>, C08/Signed.v; the matrix identity is a generated
+   TrigNF obligation re-proved on every run from the traced real gates).  A circuit over
+   {X, CNOT, TOFFOLI, multi-controlled X, CONG} is a signed permutation matrix
+   |b> -> (+/-)|b'>; [run_signed gs (b, false) = (b', sign)] computes the column of |b>.  So
+
+       forall b, run_signed gs (b, false) = (mcx_spec controls target b, false)
+
+   says: the circuit is EXACTLY the multi-controlled X as an operator (every column agrees, all
+   signs +, no relative and not even a global phase), and by linearity it is the identity on the
+   borrowed work qubits whatever state they are in.  For EVERY number of controls: *)
+Theorem mcx_decompose_congruent_all_m :
+  forall (controls : list nat) (target : nat) (free : list nat) (N : nat),
+    NoDup (controls ++ target :: free) ->
+    (forall q, In q (controls ++ target :: free) -> q < N) ->
+    (length controls < 3
+     \/ 2 * length controls - 1 <= length controls + 1 + length free
+     \/ 1 <= length free) ->
+    exists gs, mcx_decompose_cong controls target free = Some gs
+               /\ forall b, length b = N ->
+                    run_signed gs (b, false) = (mcx_spec controls target b, false).
+Proof. exact mcx_decompose_cong_correct. Qed.
+Print Assumptions mcx_decompose_congruent_all_m.
+
+(* bitwise: sign +, every bit other than the target restored (controls and borrowed work bits,
+   whatever their values), target flipped iff all controls are 1 *)
+Theorem mcx_congruent_work_bits_restored :
+  forall (controls : list nat) (target : nat) (free : list nat) (N : nat),
+    NoDup (controls ++ target :: free) ->
+    (forall q, In q (controls ++ target :: free) -> q < N) ->
+    (length controls < 3
+     \/ 2 * length controls - 1 <= length controls + 1 + length free
+     \/ 1 <= length free) ->
+    exists gs, mcx_decompose_cong controls target free = Some gs
+               /\ forall b, length b = N ->
+                    snd (run_signed gs (b, false)) = false
+                    /\ (forall q, q <> target ->
+                          nth q (fst (run_signed gs (b, false))) false = nth q b false)
+                    /\ nth target (fst (run_signed gs (b, false))) false
+                       = xorb (nth target b false) (forallb (fun k => nth k b false) controls).
+Proof. exact mcx_decompose_cong_restores. Qed.
+Print Assumptions mcx_congruent_work_bits_restored.
+
+(* one level of nested decompose calls is enough here as well *)
+Theorem x_decompose_congruent_fuel_sufficient :
+  forall (fuel : nat) (controls : list nat) (target : nat) (free : list nat) (N : nat),
+    1 <= fuel ->
+    NoDup (controls ++ target :: free) ->
+    (forall q, In q (controls ++ target :: free) -> q < N) ->
+    (length controls < 3
+     \/ 2 * length controls - 1 <= length controls + 1 + length free
+     \/ 1 <= length free) ->
+    exists gs, x_decompose_cong fuel controls target free = Some gs
+               /\ forall b, length b = N ->
+                    run_signed gs (b, false) = (mcx_spec controls target b, false).
+Proof. exact x_decompose_cong_correct. Qed.
+Print Assumptions x_decompose_congruent_fuel_sufficient.
+
+(* The sign argument (remark after Lemma 7.2 of Barenco et al.): for the ladder
+   W_k = A_k .. A_1 A_0 A_1 .. A_k of CONGRUENT Toffolis on controls c and borrowed bits f, the
+   accumulated sign is the same from any two basis states s, s' that agree on the controls and
+   differ on the borrowed bits by exactly the shift f_j -> f_j xor (c_0 & .. & c_{j+1}) that W_k
+   performs.  In  Top; W_k; Top; W_k  the second ladder starts from such a shifted state, so the
+   two signs cancel ([mcx_congruent_branch1_all_m]). *)
+Theorem mcx_congruent_ladder_sign_invariant :
+  forall (c f : list nat),
+    (forall i j, i < length c -> j < length f -> nth i c 0 <> nth j f 0) ->
+    (forall i j, i < length f -> j < length f -> nth i f 0 = nth j f 0 -> i = j) ->
+    forall k, k + 2 <= length c -> k + 1 <= length f ->
+    forall s s' : nat -> bool,
+      (forall i, i < length c -> s' (nth i c 0) = s (nth i c 0)) ->
+      (forall j, j <= k -> s' (nth j f 0) = xorb (s (nth j f 0)) (pand c s (j + 2))) ->
+      sigs (sladder c f k) s' = sigs (sladder c f k) s.
+Proof. exact sladder_sign. Qed.
+Print Assumptions mcx_congruent_ladder_sign_invariant.
+
+(* base case / branch 1 of one decompose level, every m, no recursive call ([rec] arbitrary):
+   the erased circuit is the multi-controlled X on boolean functions and the sign is + *)
+Theorem mcx_congruent_branch1_all_m :
+  forall (rec : list nat -> nat -> list nat -> option (list sgate))
+         (controls : list nat) (target : nat) (free : list nat),
+    NoDup (controls ++ target :: free) ->
+    (length controls < 3 \/ length controls - 2 <= length free) ->
+    exists gs, x_step_cong rec controls target free = Some gs
+               /\ mcx_ok controls target free (map erase gs)
+               /\ (forall s, sigs gs s = false)
+               /\ Forall (in_reg (controls ++ target :: free)) gs.
+Proof. exact smcx_branch1_ok. Qed.
+Print Assumptions mcx_congruent_branch1_all_m.
+
+(* what [sigs] / [erase] mean: the signed run is the reversible run of the erased circuit together
+   with the accumulated sign (all targets inside the register) *)
+Theorem run_signed_is_reversible_run_and_sign :
+  forall (gs : list sgate) (b : list bool) (sg : bool),
+    Forall (fun g => snd (erase g) < length b) gs ->
+    run_signed gs (b, sg)
+    = (run_cx (map erase gs) b, xorb sg (sigs gs (fun k => nth k b false))).
+Proof. exact run_signed_get. Qed.
+Print Assumptions run_signed_is_reversible_run_and_sign.
+
+(* no totalisation trap: every gate of the decomposition (target and controls, of the genuine
+   Toffolis and of the congruent ones) acts inside the register controls + target + free, so the
+   semantics never reads a bit through the default value of [nth] *)
+Theorem mcx_congruent_gates_inside_register :
+  forall (controls : list nat) (target : nat) (free : list nat),
+    NoDup (controls ++ target :: free) ->
+    (length controls < 3
+     \/ 2 * length controls - 1 <= length controls + 1 + length free
+     \/ 1 <= length free) ->
+    exists gs, mcx_decompose_cong controls target free = Some gs
+               /\ forall g, In g gs ->
+                    forall q, In q (snd (erase g) :: fst (erase g)) ->
+                              In q (controls ++ target :: free).
+Proof. exact mcx_decompose_cong_in_register. Qed.
+Print Assumptions mcx_congruent_gates_inside_register.
+
+Theorem x_decompose_congruent_rejects_no_free :
+  forall (fuel : nat) (controls : list nat) (target : nat),
+    3 <= length controls -> x_decompose_cong fuel controls target [] = None.
+Proof. exact x_decompose_cong_no_free. Qed.
+Print Assumptions x_decompose_congruent_rejects_no_free.
+
+(* ---- non-vacuity: hypotheses satisfiable, the model computes, and the signed semantics is
+        sensitive (the same circuits with the top Toffoli ALSO congruent are not sign-free) ---- *)
+(* m = 3, one free qubit (branch 1, n = 5 = 2m-1), non-ascending placement *)
+Example mcx_congruent_example_m3 :
+  let c := [4; 0; 2] in let t := 1 in let f := [3] in
+  NoDup (c ++ t :: f) /\ (forall q, In q (c ++ t :: f) -> q < 5)
+  /\ 2 * length c - 1 <= length c + 1 + length f
+  /\ mcx_decompose_cong c t f
+     = Some [SCX ([3; 4], 1); CONG 0 2 3; SCX ([3; 4], 1); CONG 0 2 3]
+  /\ signed_check 5 c t [SCX ([3; 4], 1); CONG 0 2 3; SCX ([3; 4], 1); CONG 0 2 3] = true
+  /\ signed_check 5 c t [CONG 3 4 1; CONG 0 2 3; CONG 3 4 1; CONG 0 2 3] = false.
+Proof.
+  cbv zeta. split; [|split; [|split; [|split; [|split]]]].
+  - repeat (constructor; [simpl; intuition discriminate|]). constructor.
+  - simpl. intuition lia.
+  - simpl. lia.
+  - vm_compute. reflexivity.
+  - vm_compute. reflexivity.
+  - vm_compute. reflexivity.
+Qed.
+
+(* m = 4, one free qubit (branch 2: n = 6 < 2m-1 = 7) *)
+Example mcx_congruent_example_m4 :
+  let c := [5; 2; 4; 1] in let t := 0 in let f := [3] in
+  NoDup (c ++ t :: f) /\ (forall q, In q (c ++ t :: f) -> q < 6)
+  /\ ~ (length c < 3) /\ ~ (2 * length c - 1 <= length c + 1 + length f) /\ 1 <= length f
+  /\ mcx_decompose_cong c t f =
+     Some [SCX ([4; 5], 3); CONG 1 2 5; SCX ([4; 5], 3); CONG 1 2 5; SCX ([3; 5], 0);
+           SCX ([4; 5], 3); CONG 1 2 5; SCX ([4; 5], 3); CONG 1 2 5; SCX ([3; 5], 0)]
+  /\ (forall gs, mcx_decompose_cong c t f = Some gs -> signed_check 6 c t gs = true).
+Proof.
+  cbv zeta. split; [|split; [|split; [|split; [|split; [|split]]]]].
+  - repeat (constructor; [simpl; intuition discriminate|]). constructor.
+  - simpl. intuition lia.
+  - simpl. lia.
+  - simpl. lia.
+  - simpl. lia.
+  - vm_compute. reflexivity.
+  - intros gs E. vm_compute in E. injection E as <-. vm_compute. reflexivity.
+Qed.
+
+(* m = 6, one free qubit (branch 2 whose halves are branch-1 ladders with congruent gates) and
+   m = 5, three free qubits (branch 1 with a three-rung ladder): all 2^8 / 2^9 basis states *)
+Example mcx_congruent_example_m6 :
+  let c := [7; 3; 0; 5; 2; 6] in let t := 4 in let f := [1] in
+  NoDup (c ++ t :: f) /\ (forall q, In q (c ++ t :: f) -> q < 8) /\ 1 <= length f
+  /\ mcx_decompose_cong c t f =
+     Some [SCX ([5; 7], 1); CONG 3 6 7; CONG 0 2 6; CONG 3 6 7;
+           SCX ([5; 7], 1); CONG 3 6 7; CONG 0 2 6; CONG 3 6 7;
+           SCX ([0; 7], 4); CONG 1 6 0; SCX ([0; 7], 4); CONG 1 6 0;
+           SCX ([5; 7], 1); CONG 3 6 7; CONG 0 2 6; CONG 3 6 7;
+           SCX ([5; 7], 1); CONG 3 6 7; CONG 0 2 6; CONG 3 6 7;
+           SCX ([0; 7], 4); CONG 1 6 0; SCX ([0; 7], 4); CONG 1 6 0]
+  /\ (forall gs, mcx_decompose_cong c t f = Some gs -> signed_check 8 c t gs = true)
+  /\ (forall gs, mcx_decompose_cong [5; 2; 7; 1; 8] 0 [3; 4; 6] = Some gs ->
+        signed_check 9 [5; 2; 7; 1; 8] 0 gs = true).
+Proof.
+  cbv zeta. split; [|split; [|split; [|split; [|split]]]].
+  - repeat (constructor; [simpl; intuition discriminate|]). constructor.
+  - simpl. intuition lia.
+  - simpl. lia.
+  - vm_compute. reflexivity.
+  - intros gs E. vm_compute in E. injection E as <-. vm_compute. reflexivity.
+  - intros gs E. vm_compute in E. injection E as <-. vm_compute. reflexivity.
 Qed.
